@@ -429,6 +429,7 @@ fn replay(prop: &str, file: &std::path::Path) {
             std::process::exit(if r == "ok" { 0 } else { 1 });
         }
         "C01" | "C03" | "C04" if case.get("block").is_some() => simple_replay(prop, vh::scalar::replay(case)),
+        "C01" | "C03" if case.get("mixed").is_some() => simple_replay(prop, vh::mixed::replay(&case["mixed"], prop)),
         "C09" | "C10" | "C11" | "C12" => {
             let ms = vh::domx::replay(case);
             let mine: Vec<_> = ms.iter().filter(|m| m.prop == prop).collect();
